@@ -81,6 +81,10 @@ EXCERPTS = [
 ]
 
 
+GUARD = "prqlc_verif"
+HOOK_LINES = {}     # id(src) -> line numbers inside #[cfg(prqlc_verif)] items (filled by strip_cfg_test)
+
+
 def codes(s):
     return "[" + ";".join(str(ord(c)) for c in s) + "]"
 
@@ -92,6 +96,7 @@ def strip_cfg_test(src, m):
     Returns (src', masked', [names of modules declared `#[cfg(test)] mod x;`])"""
     out_s, out_m = list(src), list(m)
     declared = []
+    hook_lines = set()
     n = len(m)
     for mm in re.finditer(r"#\[cfg\((test|prqlc_verif)\)\]", m):
         i = mm.end()
@@ -162,10 +167,13 @@ def strip_cfg_test(src, m):
             if j >= n:
                 raise ExtractError("#[cfg(..)] statement without ';'")
             end = j + 1
+        if mm.group(1) == GUARD:
+            hook_lines.update(range(src.count("\n", 0, mm.start()) + 1, src.count("\n", 0, end) + 2))
         for k in range(mm.start(), end):
             if out_s[k] != "\n":
                 out_s[k] = " "
                 out_m[k] = " "
+    HOOK_LINES[id(src)] = hook_lines
     return "".join(out_s), "".join(out_m), declared
 
 
@@ -284,11 +292,15 @@ def item_body(src, m, pattern, rel):
 def extract():
     files = list_files()
     texts = {}
+    hook_lines = {}
     test_decl = set()
     for rel in files:
         src = open(os.path.join(REPO, rel), encoding="utf-8").read()
         m = mask(src)
         s2, m2, declared = strip_cfg_test(src, m)
+        if HOOK_LINES.get(id(src)):
+            hook_lines[rel] = sorted(HOOK_LINES[id(src)])
+        HOOK_LINES.pop(id(src), None)
         d = os.path.dirname(rel)
         for name in declared:
             test_decl.add(os.path.join(d, name + ".rs"))
@@ -368,7 +380,7 @@ def extract():
     if not variants:
         raise ExtractError("enum Reason: no variants")
     return {"sites": sorted(sites), "modelled": modelled, "total": total, "files": kept,
-            "simple_literals": lits, "reason_variants": variants}
+            "simple_literals": lits, "reason_variants": variants, "hook_lines": hook_lines}
 
 
 def render(info):
